@@ -92,15 +92,19 @@ func (sf ScrubFields) Clean(payload map[string]interface{}) {
 
 func (sf ScrubFields) clean(payload map[string]interface{}, path []string, fields map[string][]string) bool {
 	if len(path) == 0 {
-		for typename, fields := range fields {
-			if tn, ok := payload[common.TypenameFieldName]; ok && typename != tn {
-				continue
-			}
-
-			for _, f := range fields {
+		if tn, ok := payload[common.TypenameFieldName].(string); ok {
+			// the object says what it is: remove what was added for that type
+			for _, f := range fields[tn] {
 				delete(payload, f)
 			}
-			break
+		} else {
+			// the type of the object is not known: remove every helper that may have been added,
+			// whatever order the types are visited in
+			for _, typeFields := range fields {
+				for _, f := range typeFields {
+					delete(payload, f)
+				}
+			}
 		}
 		return len(payload) == 0
 	}
